@@ -542,17 +542,17 @@ impl<'w, 'i, W: Write> ContentSerializer<'w, 'i, W> {
 //@end
 
 //@extract simple_type::SimpleSeq | src/se/simple_type.rs :: struct SimpleSeq | serves=C13 features=serialize
- struct SimpleSeq<W: Write> {
-    writer: W,
-    target: QuoteTarget,
-    level: QuoteLevel,
+ pub struct SimpleSeq<W: Write> {
+    pub writer: W,
+    pub target: QuoteTarget,
+    pub level: QuoteLevel,
     /// If `true`, nothing was written yet to the `writer`
-    is_empty: bool,
+    pub is_empty: bool,
 }
 //@end
 //@extract simple_type::AtomicSerializer | src/se/simple_type.rs :: struct AtomicSerializer | serves=C13 features=serialize
 //@rewrite pub(crate) write_delimiter ==> pub write_delimiter
- struct AtomicSerializer<W: Write> {
+ pub struct AtomicSerializer<W: Write> {
     pub writer: W,
     pub target: QuoteTarget,
     /// Defines which XML characters need to be escaped
@@ -562,7 +562,7 @@ impl<'w, 'i, W: Write> ContentSerializer<'w, 'i, W> {
 }
 //@end
 //@extract element::Tuple | src/se/element.rs :: enum Tuple | serves=C19 features=serialize
- enum Tuple<'w, 'k, W: Write> {
+ pub enum Tuple<'w, 'k, W: Write> {
     /// Serialize each tuple field as an element
     Element(ElementSerializer<'w, 'k, W>),
     /// Serialize tuple as an `xs:list`: space-delimited content of fields
@@ -621,7 +621,11 @@ impl<'w, W: Write> Serializer for SimpleTypeSerializer<&'w mut W> {
     }
 //@end
 //@extract simple_type::SimpleTypeSerializer::serialize_seq | src/se/simple_type.rs :: impl<W: Write> Serializer for SimpleTypeSerializer<W> :: fn serialize_seq | serves=C13 features=serialize
-    fn serialize_seq(self, _len: Option<usize>) -> Result<Self::SerializeSeq, Self::Error> {
+    fn serialize_seq(self, _len: Option<usize>) -> (r: Result<Self::SerializeSeq, Self::Error>)
+        // C13: the items of an xs:list are escaped for the SAME position (attribute value or text) and level
+        ensures r matches Ok(q) && q.target == self.target && q.level == self.level && q.is_empty
+            && (*q.writer).out() == (*old(self.writer)).out() && *final(q.writer) == *final(self.writer),
+    {
         Ok(SimpleSeq {
             writer: self.writer,
             target: self.target,
@@ -1009,7 +1013,13 @@ impl<'w, W: Write> SerializeTuple for SimpleSeq<&'w mut W> {
 }
 impl<'a, W: Write> AtomicSerializer<&'a mut W> {
 //@extract simple_type::AtomicSerializer::write_str | src/se/simple_type.rs :: impl<W: Write> AtomicSerializer<W> :: fn write_str | serves=C13 features=serialize
-    fn write_str(&mut self, value: &str) -> Result<(), SeError> {
+    fn write_str(&mut self, value: &str) -> (r: Result<(), SeError>)
+        ensures final(self).target == old(self).target, final(self).level == old(self).level,
+            *final(final(self).writer) == *final(old(self).writer),
+            // the xs:list delimiter: ONE space, only between items
+            r is Ok ==> (*final(self).writer).out() == (*old(self).writer).out() + (if old(self).write_delimiter { seq![0x20u8] } else { BSeq::empty() }) + value.spec_bytes(),
+    {
+        proof { lemma_nl(); }
         if self.write_delimiter {
             // TODO: Customization point -- possible non-XML compatible extension to specify delimiter char
             self.writer.write_char(' ')?;
@@ -1024,7 +1034,19 @@ impl<'a, W: Write> Serializer for AtomicSerializer<&'a mut W> {
     type SerializeSeq = ();
     open spec fn ok(&self) -> bool { true }
 //@extract simple_type::AtomicSerializer::serialize_str | src/se/simple_type.rs :: impl<W: Write> Serializer for AtomicSerializer<W> :: fn serialize_str | serves=C13 features=serialize
-    fn serialize_str(self, value: &str) -> Result<Self::Ok, Self::Error> { let mut self__ = self;
+    fn serialize_str(self, value: &str) -> (r: Result<Self::Ok, Self::Error>)
+        ensures
+            // C13: an item is written ONLY through the item table of its position (escape_item: whitespace escaped too, so
+            // that the only raw spaces in a list are the delimiters); an empty item writes nothing and reports so
+            r matches Ok(b) ==> b == (value.spec_bytes().len() > 0)
+                && (*final(self.writer)).out() == (*old(self.writer)).out()
+                    + (if b && self.write_delimiter { seq![0x20u8] } else { BSeq::empty() })
+                    + spec_escape(value.spec_bytes(), p_item(self.target, self.level)),
+    { let mut self__ = self;
+        proof {
+            axiom_cow_str_all();
+            if value.spec_bytes().len() == 0 { assert(spec_escape(value.spec_bytes(), p_item(self.target, self.level)) =~= BSeq::empty()); assert((*old(self.writer)).out() + BSeq::empty() + BSeq::empty() =~= (*old(self.writer)).out()); }
+        }
         if !value.is_empty() {
             self__.write_str(&escape_item(value, self__.target, self__.level))?;
         }
@@ -1032,14 +1054,18 @@ impl<'a, W: Write> Serializer for AtomicSerializer<&'a mut W> {
     }
 //@end
 //@extract simple_type::AtomicSerializer::serialize_none | src/se/simple_type.rs :: impl<W: Write> Serializer for AtomicSerializer<W> :: fn serialize_none | serves=C13 features=serialize
-    fn serialize_none(self) -> Result<Self::Ok, Self::Error> {
+    fn serialize_none(self) -> (r: Result<Self::Ok, Self::Error>)
+        ensures r matches Ok(b) && !b && *final(self.writer) == *old(self.writer)
+    {
         Ok(false)
     }
 //@end
 //@extract simple_type::AtomicSerializer::serialize_unit | src/se/simple_type.rs :: impl<W: Write> Serializer for AtomicSerializer<W> :: fn serialize_unit | serves=C13 features=serialize n15=1
     /// We cannot store anything, so the absence of a unit and presence of it
     /// does not differ, so serialization of unit returns `Err(Unsupported)`
-    fn serialize_unit(self) -> Result<Self::Ok, Self::Error> {
+    fn serialize_unit(self) -> (r: Result<Self::Ok, Self::Error>)
+        ensures r is Err
+    {
         Err(SeError::Unsupported(
             errmsg_(),
         ))
@@ -1051,12 +1077,20 @@ impl<'a, W: Write> Serializer for AtomicSerializer<&'a mut W> {
         _name: &'static str,
         _variant_index: u32,
         variant: &'static str,
-    ) -> Result<Self::Ok, Self::Error> {
+    ) -> (r: Result<Self::Ok, Self::Error>)
+        // a unit variant is its name, escaped like any other item
+        ensures r matches Ok(b) ==> b == (variant.spec_bytes().len() > 0)
+            && (*final(self.writer)).out() == (*old(self.writer)).out()
+                + (if b && self.write_delimiter { seq![0x20u8] } else { BSeq::empty() })
+                + spec_escape(variant.spec_bytes(), p_item(self.target, self.level)),
+    {
         self.serialize_str(variant)
     }
 //@end
 //@extract simple_type::AtomicSerializer::serialize_seq | src/se/simple_type.rs :: impl<W: Write> Serializer for AtomicSerializer<W> :: fn serialize_seq | serves=C13 features=serialize n15=1
-    fn serialize_seq(self, _len: Option<usize>) -> Result<Self::SerializeSeq, Self::Error> {
+    fn serialize_seq(self, _len: Option<usize>) -> (r: Result<Self::SerializeSeq, Self::Error>)
+        ensures r is Err
+    {
         Err(SeError::Unsupported(
             errmsg_(),
         ))
@@ -1147,7 +1181,7 @@ impl<'w, 'k, W: Write> SerializeTupleVariant for Tuple<'w, 'k, W> {
             Self::Element(ser) => SerializeTuple::end(ser),
             // Do not write indent after `$text` fields because it may be interpreted as
             // part of content when deserialize
-            Self::Text(ser) => SerializeTuple::end(ser).map(|_w: &'w mut W| WriteResult::SensitiveText),
+            Self::Text(ser) => SerializeTuple::end(ser).map(|_w: &'w mut W| -> (x: WriteResult) ensures x is SensitiveText { WriteResult::SensitiveText }),
         }
     }
 //@end
